@@ -264,7 +264,7 @@ fn main() {
             }
         }
     }
-    let nr = if san { ctx.budget(2, 6) } else { ctx.budget(1500, 30000) };
+    let nr = if san { ctx.cbudget(2, 6) } else { ctx.cbudget(1500, 30000) };
     for _ in 0..nr {
         if let Some(mut rng) = ctx.random_case() {
             let len = rng.range_usize(0, if san { 8 } else { 60 });
